@@ -20,6 +20,8 @@
                               ends the task loop without reply and without cleanStream
      "LoopCountsRetries"      every retry uses up one of the 10 iterations of the task loop: num_retries >= 9 with
                               attempts that keep failing falls out of the loop without reply or clean-up
+     "NoCleanUpOnRetryAbort"  doRetry's exits for a retry that cannot start (deadline passed, no host) skip cleanUp():
+                              processError then drops the retry state and the retries resource is never given back
      "StaleFlagAfterRetry"    a timer callback that was already running when the retry was set up wins the
                               upstreamResponseReceived CAS, is ignored (setupRetry), and the flag stays set:
                               the next attempt's response and every later timer lose the CAS *)
@@ -44,7 +46,8 @@ variables
   deadlinePassed = FALSE,                  \* the global timeout has expired (set when its timer fires)
   respHdr = "none",                        \* response waiting to be sent downstream: none | ok | 5xx | hijack
   replies = 0, attempts = 0, gauge = 1,
-  loopI = 0, phase = "send", err = FALSE, clientGone = FALSE;
+  loopI = 0, phase = "send", err = FALSE, clientGone = FALSE,
+  rheld = 0;                               \* units of the cluster's retries resource this request holds (retryState.retryCounted)
 
 define
   Retryable(r) == r \in {"connfail", "pertry", "close"}
@@ -61,12 +64,14 @@ end macro;
 
 macro CleanUp() begin
   gt := StopT(gt); pt := StopT(pt);
+  if rsSet then rheld := 0; end if;                \* cleanUp: retryState.reset() - only while a retry state exists
 end macro;
 
 macro CleanStream() begin
   if cleaned = 0 then
     cleaned := 1; gauge := gauge - 1;
     gt := StopT(gt); pt := StopT(pt);
+    if rsSet then rheld := 0; end if;
     if beh[cur] \in Behaviours /\ ~upDone then beh[cur] := "reset"; end if;
   end if;
 end macro;
@@ -114,6 +119,7 @@ PE:
     \* onUpstreamReset(reason)
     if reason # "global" /\ ~respStarted /\ rsSet /\ remaining > 0 /\ Retryable(reason) then
       remaining := remaining - 1;
+      rheld := 1;                                    \* retryState.retry(): reset(), then Retries().Increase()
       setupRetry[cur] := TRUE;                       \* setupRetry(true): resetStream, stop per-try timer, CAS(urr,1,0)
       if beh[cur] \in Behaviours then beh[cur] := "reset"; end if;
       pt := StopT(pt);
@@ -164,13 +170,13 @@ RetryPool:                                          \* ds.retry.pool
   if deadlinePassed /\ "NoDeadlineCheck" \notin Defects then
     setupRetry[cur] := FALSE;
     respHdr := "hijack"; direct := TRUE;             \* timeout reply instead of another attempt
-    CleanUp();
+    if "NoCleanUpOnRetryAbort" \notin Defects then CleanUp(); end if;   \* the local reply drops the retry state: release now
     retNext := "wait";
     goto PE;
   elsif cur >= MaxA then                             \* no further host: "no healthy upstream"
     setupRetry[cur] := FALSE;
     respHdr := "hijack"; direct := TRUE;
-    CleanUp();
+    if "NoCleanUpOnRetryAbort" \notin Defects then CleanUp(); end if;
     retNext := "wait";
     goto PE;
   end if;
@@ -185,7 +191,7 @@ UpFilter:                                           \* send filters, then proces
   if cleaned = 1 then goto Exit;
   elsif upReset = 1 then
     if reason # "global" /\ ~respStarted /\ rsSet /\ remaining > 0 /\ Retryable(reason) then
-      remaining := remaining - 1; setupRetry[cur] := TRUE;
+      remaining := remaining - 1; rheld := 1; setupRetry[cur] := TRUE;
       if beh[cur] \in Behaviours then beh[cur] := "reset"; end if;
       pt := StopT(pt); urr := 0; err := TRUE;
       goto UpResetRetry;
@@ -210,12 +216,14 @@ UpHdr:                                              \* upstreamRequest.receiveHe
     goto PE;
   elsif rsSet /\ respHdr = "5xx" /\ remaining > 0 then
     remaining := remaining - 1;                     \* retry on the response: setupRetry(endStream)
+    rheld := 1;
     setupRetry[cur] := TRUE; pt := StopT(pt); urr := 0;
     respHdr := "none";
     retNext := "none";
     goto PE;
   else
     if rsSet /\ remaining > 0 then remaining := remaining - 1; end if;
+    if rsSet then rheld := 0; end if;                \* retry() begins with reset(); the accepted response ends with reset()
     respStarted := TRUE; upDone := TRUE;
     replies := replies + 1;                          \* responseSender.AppendHeaders(endStream = true)
   end if;
@@ -294,7 +302,7 @@ end algorithm; *)
 VARIABLES pc, urr, cleaned, dsReset, upReset, reason, direct, respStarted, 
           upDone, notify, cur, setupRetry, beh, answered, remaining, rsSet, 
           gt, pt, deadlinePassed, respHdr, replies, attempts, gauge, loopI, 
-          phase, err, clientGone
+          phase, err, clientGone, rheld
 
 (* define statement *)
 Retryable(r) == r \in {"connfail", "pertry", "close"}
@@ -306,7 +314,7 @@ VARIABLES retNext, ua
 vars == << pc, urr, cleaned, dsReset, upReset, reason, direct, respStarted, 
            upDone, notify, cur, setupRetry, beh, answered, remaining, rsSet, 
            gt, pt, deadlinePassed, respHdr, replies, attempts, gauge, loopI, 
-           phase, err, clientGone, retNext, ua >>
+           phase, err, clientGone, rheld, retNext, ua >>
 
 ProcSet == {"w"} \cup {"g"} \cup {"p"} \cup {"u"} \cup {"c"}
 
@@ -337,6 +345,7 @@ Init == (* Global variables *)
         /\ phase = "send"
         /\ err = FALSE
         /\ clientGone = FALSE
+        /\ rheld = 0
         (* Process worker *)
         /\ retNext = "none"
         (* Process upstream *)
@@ -355,7 +364,7 @@ LoopTop == /\ pc["w"] = "LoopTop"
                            respStarted, upDone, notify, cur, setupRetry, beh, 
                            answered, remaining, rsSet, gt, pt, deadlinePassed, 
                            respHdr, replies, attempts, gauge, loopI, phase, 
-                           err, clientGone, retNext, ua >>
+                           err, clientGone, rheld, retNext, ua >>
 
 L1 == /\ pc["w"] = "L1"
       /\ IF phase # "retry" \/ "LoopCountsRetries" \in Defects
@@ -373,7 +382,7 @@ L1 == /\ pc["w"] = "L1"
       /\ UNCHANGED << urr, cleaned, dsReset, upReset, reason, direct, 
                       respStarted, upDone, cur, setupRetry, beh, answered, 
                       remaining, rsSet, gt, pt, deadlinePassed, respHdr, 
-                      replies, attempts, gauge, phase, err, clientGone, 
+                      replies, attempts, gauge, phase, err, clientGone, rheld, 
                       retNext, ua >>
 
 Send == /\ pc["w"] = "Send"
@@ -397,7 +406,7 @@ Send == /\ pc["w"] = "Send"
         /\ UNCHANGED << urr, cleaned, dsReset, direct, respStarted, upDone, 
                         cur, setupRetry, answered, remaining, rsSet, gt, pt, 
                         deadlinePassed, respHdr, replies, gauge, loopI, phase, 
-                        err, clientGone, retNext, ua >>
+                        err, clientGone, rheld, retNext, ua >>
 
 Arm == /\ pc["w"] = "Arm"
        /\ IF HasTry
@@ -414,7 +423,7 @@ Arm == /\ pc["w"] = "Arm"
                        respStarted, upDone, notify, cur, setupRetry, beh, 
                        answered, remaining, rsSet, deadlinePassed, respHdr, 
                        replies, attempts, gauge, loopI, phase, err, clientGone, 
-                       ua >>
+                       rheld, ua >>
 
 Wait == /\ pc["w"] = "Wait"
         /\ notify = 1
@@ -424,7 +433,7 @@ Wait == /\ pc["w"] = "Wait"
                         respStarted, upDone, cur, setupRetry, beh, answered, 
                         remaining, rsSet, gt, pt, deadlinePassed, respHdr, 
                         replies, attempts, gauge, loopI, phase, err, 
-                        clientGone, retNext, ua >>
+                        clientGone, rheld, retNext, ua >>
 
 Woken == /\ pc["w"] = "Woken"
          /\ retNext' = "upfilter"
@@ -433,16 +442,17 @@ Woken == /\ pc["w"] = "Woken"
                          respStarted, upDone, notify, cur, setupRetry, beh, 
                          answered, remaining, rsSet, gt, pt, deadlinePassed, 
                          respHdr, replies, attempts, gauge, loopI, phase, err, 
-                         clientGone, ua >>
+                         clientGone, rheld, ua >>
 
 PE == /\ pc["w"] = "PE"
       /\ IF cleaned = 1
             THEN /\ pc' = [pc EXCEPT !["w"] = "Exit"]
                  /\ UNCHANGED << urr, upReset, direct, setupRetry, beh, 
-                                 remaining, gt, pt, respHdr, err >>
+                                 remaining, gt, pt, respHdr, err, rheld >>
             ELSE /\ IF upReset = 1
                        THEN /\ IF reason # "global" /\ ~respStarted /\ rsSet /\ remaining > 0 /\ Retryable(reason)
                                   THEN /\ remaining' = remaining - 1
+                                       /\ rheld' = 1
                                        /\ setupRetry' = [setupRetry EXCEPT ![cur] = TRUE]
                                        /\ IF beh[cur] \in Behaviours
                                              THEN /\ beh' = [beh EXCEPT ![cur] = "reset"]
@@ -460,6 +470,10 @@ PE == /\ pc["w"] = "PE"
                                                   /\ UNCHANGED remaining
                                        /\ gt' = StopT(gt)
                                        /\ pt' = StopT(pt)
+                                       /\ IF rsSet
+                                             THEN /\ rheld' = 0
+                                             ELSE /\ TRUE
+                                                  /\ rheld' = rheld
                                        /\ upReset' = 0
                                        /\ respHdr' = "hijack"
                                        /\ direct' = TRUE
@@ -469,7 +483,8 @@ PE == /\ pc["w"] = "PE"
                        ELSE /\ err' = FALSE
                             /\ pc' = [pc EXCEPT !["w"] = "PE2"]
                             /\ UNCHANGED << urr, upReset, direct, setupRetry, 
-                                            beh, remaining, gt, pt, respHdr >>
+                                            beh, remaining, gt, pt, respHdr, 
+                                            rheld >>
       /\ UNCHANGED << cleaned, dsReset, reason, respStarted, upDone, notify, 
                       cur, answered, rsSet, deadlinePassed, replies, attempts, 
                       gauge, loopI, phase, clientGone, retNext, ua >>
@@ -481,12 +496,17 @@ PE2 == /\ pc["w"] = "PE2"
                              /\ gauge' = gauge - 1
                              /\ gt' = StopT(gt)
                              /\ pt' = StopT(pt)
+                             /\ IF rsSet
+                                   THEN /\ rheld' = 0
+                                   ELSE /\ TRUE
+                                        /\ rheld' = rheld
                              /\ IF beh[cur] \in Behaviours /\ ~upDone
                                    THEN /\ beh' = [beh EXCEPT ![cur] = "reset"]
                                    ELSE /\ TRUE
                                         /\ beh' = beh
                         ELSE /\ TRUE
-                             /\ UNCHANGED << cleaned, beh, gt, pt, gauge >>
+                             /\ UNCHANGED << cleaned, beh, gt, pt, gauge, 
+                                             rheld >>
                   /\ pc' = [pc EXCEPT !["w"] = "Exit"]
                   /\ UNCHANGED << direct, setupRetry, rsSet, phase >>
              ELSE /\ IF direct
@@ -520,7 +540,7 @@ PE2 == /\ pc["w"] = "PE2"
                                                                                     /\ phase' = phase
                                                    /\ UNCHANGED setupRetry
                              /\ UNCHANGED << direct, rsSet >>
-                  /\ UNCHANGED << cleaned, beh, gt, pt, gauge >>
+                  /\ UNCHANGED << cleaned, beh, gt, pt, gauge, rheld >>
        /\ UNCHANGED << urr, dsReset, upReset, reason, respStarted, upDone, 
                        notify, cur, answered, remaining, deadlinePassed, 
                        respHdr, replies, attempts, loopI, err, clientGone, 
@@ -533,8 +553,8 @@ UpResetRetry == /\ pc["w"] = "UpResetRetry"
                                 respStarted, upDone, notify, cur, setupRetry, 
                                 beh, answered, remaining, rsSet, gt, pt, 
                                 deadlinePassed, respHdr, replies, attempts, 
-                                gauge, loopI, phase, err, clientGone, retNext, 
-                                ua >>
+                                gauge, loopI, phase, err, clientGone, rheld, 
+                                retNext, ua >>
 
 RetryBegin == /\ pc["w"] = "RetryBegin"
               /\ TRUE
@@ -543,29 +563,43 @@ RetryBegin == /\ pc["w"] = "RetryBegin"
                               respStarted, upDone, notify, cur, setupRetry, 
                               beh, answered, remaining, rsSet, gt, pt, 
                               deadlinePassed, respHdr, replies, attempts, 
-                              gauge, loopI, phase, err, clientGone, retNext, 
-                              ua >>
+                              gauge, loopI, phase, err, clientGone, rheld, 
+                              retNext, ua >>
 
 RetryPool == /\ pc["w"] = "RetryPool"
              /\ IF deadlinePassed /\ "NoDeadlineCheck" \notin Defects
                    THEN /\ setupRetry' = [setupRetry EXCEPT ![cur] = FALSE]
                         /\ respHdr' = "hijack"
                         /\ direct' = TRUE
-                        /\ gt' = StopT(gt)
-                        /\ pt' = StopT(pt)
+                        /\ IF "NoCleanUpOnRetryAbort" \notin Defects
+                              THEN /\ gt' = StopT(gt)
+                                   /\ pt' = StopT(pt)
+                                   /\ IF rsSet
+                                         THEN /\ rheld' = 0
+                                         ELSE /\ TRUE
+                                              /\ rheld' = rheld
+                              ELSE /\ TRUE
+                                   /\ UNCHANGED << gt, pt, rheld >>
                         /\ retNext' = "wait"
                         /\ pc' = [pc EXCEPT !["w"] = "PE"]
                    ELSE /\ IF cur >= MaxA
                               THEN /\ setupRetry' = [setupRetry EXCEPT ![cur] = FALSE]
                                    /\ respHdr' = "hijack"
                                    /\ direct' = TRUE
-                                   /\ gt' = StopT(gt)
-                                   /\ pt' = StopT(pt)
+                                   /\ IF "NoCleanUpOnRetryAbort" \notin Defects
+                                         THEN /\ gt' = StopT(gt)
+                                              /\ pt' = StopT(pt)
+                                              /\ IF rsSet
+                                                    THEN /\ rheld' = 0
+                                                    ELSE /\ TRUE
+                                                         /\ rheld' = rheld
+                                         ELSE /\ TRUE
+                                              /\ UNCHANGED << gt, pt, rheld >>
                                    /\ retNext' = "wait"
                                    /\ pc' = [pc EXCEPT !["w"] = "PE"]
                               ELSE /\ pc' = [pc EXCEPT !["w"] = "RetryChosen"]
                                    /\ UNCHANGED << direct, setupRetry, gt, pt, 
-                                                   respHdr, retNext >>
+                                                   respHdr, rheld, retNext >>
              /\ UNCHANGED << urr, cleaned, dsReset, upReset, reason, 
                              respStarted, upDone, notify, cur, beh, answered, 
                              remaining, rsSet, deadlinePassed, replies, 
@@ -583,18 +617,19 @@ RetryChosen == /\ pc["w"] = "RetryChosen"
                                respStarted, upDone, notify, setupRetry, beh, 
                                answered, remaining, rsSet, gt, pt, 
                                deadlinePassed, respHdr, replies, attempts, 
-                               gauge, loopI, phase, err, clientGone, retNext, 
-                               ua >>
+                               gauge, loopI, phase, err, clientGone, rheld, 
+                               retNext, ua >>
 
 UpFilter == /\ pc["w"] = "UpFilter"
             /\ retNext' = "uphdr"
             /\ IF cleaned = 1
                   THEN /\ pc' = [pc EXCEPT !["w"] = "Exit"]
                        /\ UNCHANGED << urr, upReset, direct, setupRetry, beh, 
-                                       remaining, gt, pt, respHdr, err >>
+                                       remaining, gt, pt, respHdr, err, rheld >>
                   ELSE /\ IF upReset = 1
                              THEN /\ IF reason # "global" /\ ~respStarted /\ rsSet /\ remaining > 0 /\ Retryable(reason)
                                         THEN /\ remaining' = remaining - 1
+                                             /\ rheld' = 1
                                              /\ setupRetry' = [setupRetry EXCEPT ![cur] = TRUE]
                                              /\ IF beh[cur] \in Behaviours
                                                    THEN /\ beh' = [beh EXCEPT ![cur] = "reset"]
@@ -608,6 +643,10 @@ UpFilter == /\ pc["w"] = "UpFilter"
                                                              gt, respHdr >>
                                         ELSE /\ gt' = StopT(gt)
                                              /\ pt' = StopT(pt)
+                                             /\ IF rsSet
+                                                   THEN /\ rheld' = 0
+                                                   ELSE /\ TRUE
+                                                        /\ rheld' = rheld
                                              /\ upReset' = 0
                                              /\ respHdr' = "hijack"
                                              /\ direct' = TRUE
@@ -619,7 +658,7 @@ UpFilter == /\ pc["w"] = "UpFilter"
                                   /\ pc' = [pc EXCEPT !["w"] = "UpFilter2"]
                                   /\ UNCHANGED << urr, upReset, direct, 
                                                   setupRetry, beh, remaining, 
-                                                  gt, pt, respHdr >>
+                                                  gt, pt, respHdr, rheld >>
             /\ UNCHANGED << cleaned, dsReset, reason, respStarted, upDone, 
                             notify, cur, answered, rsSet, deadlinePassed, 
                             replies, attempts, gauge, loopI, phase, clientGone, 
@@ -632,12 +671,17 @@ UpFilter2 == /\ pc["w"] = "UpFilter2"
                                    /\ gauge' = gauge - 1
                                    /\ gt' = StopT(gt)
                                    /\ pt' = StopT(pt)
+                                   /\ IF rsSet
+                                         THEN /\ rheld' = 0
+                                         ELSE /\ TRUE
+                                              /\ rheld' = rheld
                                    /\ IF beh[cur] \in Behaviours /\ ~upDone
                                          THEN /\ beh' = [beh EXCEPT ![cur] = "reset"]
                                          ELSE /\ TRUE
                                               /\ beh' = beh
                               ELSE /\ TRUE
-                                   /\ UNCHANGED << cleaned, beh, gt, pt, gauge >>
+                                   /\ UNCHANGED << cleaned, beh, gt, pt, gauge, 
+                                                   rheld >>
                         /\ pc' = [pc EXCEPT !["w"] = "Exit"]
                         /\ UNCHANGED << direct, setupRetry, rsSet, phase >>
                    ELSE /\ IF direct
@@ -661,7 +705,7 @@ UpFilter2 == /\ pc["w"] = "UpFilter2"
                                                          /\ UNCHANGED << setupRetry, 
                                                                          phase >>
                                    /\ UNCHANGED << direct, rsSet >>
-                        /\ UNCHANGED << cleaned, beh, gt, pt, gauge >>
+                        /\ UNCHANGED << cleaned, beh, gt, pt, gauge, rheld >>
              /\ UNCHANGED << urr, dsReset, upReset, reason, respStarted, 
                              upDone, notify, cur, answered, remaining, 
                              deadlinePassed, respHdr, replies, attempts, loopI, 
@@ -672,9 +716,10 @@ UpHdr == /\ pc["w"] = "UpHdr"
                THEN /\ retNext' = "none"
                     /\ pc' = [pc EXCEPT !["w"] = "PE"]
                     /\ UNCHANGED << urr, respStarted, upDone, setupRetry, 
-                                    remaining, pt, respHdr, replies >>
+                                    remaining, pt, respHdr, replies, rheld >>
                ELSE /\ IF rsSet /\ respHdr = "5xx" /\ remaining > 0
                           THEN /\ remaining' = remaining - 1
+                               /\ rheld' = 1
                                /\ setupRetry' = [setupRetry EXCEPT ![cur] = TRUE]
                                /\ pt' = StopT(pt)
                                /\ urr' = 0
@@ -686,6 +731,10 @@ UpHdr == /\ pc["w"] = "UpHdr"
                                      THEN /\ remaining' = remaining - 1
                                      ELSE /\ TRUE
                                           /\ UNCHANGED remaining
+                               /\ IF rsSet
+                                     THEN /\ rheld' = 0
+                                     ELSE /\ TRUE
+                                          /\ rheld' = rheld
                                /\ respStarted' = TRUE
                                /\ upDone' = TRUE
                                /\ replies' = replies + 1
@@ -702,12 +751,16 @@ EndStream == /\ pc["w"] = "EndStream"
                         /\ gauge' = gauge - 1
                         /\ gt' = StopT(gt)
                         /\ pt' = StopT(pt)
+                        /\ IF rsSet
+                              THEN /\ rheld' = 0
+                              ELSE /\ TRUE
+                                   /\ rheld' = rheld
                         /\ IF beh[cur] \in Behaviours /\ ~upDone
                               THEN /\ beh' = [beh EXCEPT ![cur] = "reset"]
                               ELSE /\ TRUE
                                    /\ beh' = beh
                    ELSE /\ TRUE
-                        /\ UNCHANGED << cleaned, beh, gt, pt, gauge >>
+                        /\ UNCHANGED << cleaned, beh, gt, pt, gauge, rheld >>
              /\ pc' = [pc EXCEPT !["w"] = "Exit"]
              /\ UNCHANGED << urr, dsReset, upReset, reason, direct, 
                              respStarted, upDone, notify, cur, setupRetry, 
@@ -722,7 +775,7 @@ FellOut == /\ pc["w"] = "FellOut"
                            respStarted, upDone, notify, cur, setupRetry, beh, 
                            answered, remaining, rsSet, gt, pt, deadlinePassed, 
                            respHdr, replies, attempts, gauge, loopI, phase, 
-                           err, clientGone, retNext, ua >>
+                           err, clientGone, rheld, retNext, ua >>
 
 Exit == /\ pc["w"] = "Exit"
         /\ TRUE
@@ -731,7 +784,7 @@ Exit == /\ pc["w"] = "Exit"
                         respStarted, upDone, notify, cur, setupRetry, beh, 
                         answered, remaining, rsSet, gt, pt, deadlinePassed, 
                         respHdr, replies, attempts, gauge, loopI, phase, err, 
-                        clientGone, retNext, ua >>
+                        clientGone, rheld, retNext, ua >>
 
 worker == LoopTop \/ L1 \/ Send \/ Arm \/ Wait \/ Woken \/ PE \/ PE2
              \/ UpResetRetry \/ RetryBegin \/ RetryPool \/ RetryChosen
@@ -749,7 +802,7 @@ GFire == /\ pc["g"] = "GFire"
          /\ UNCHANGED << urr, cleaned, dsReset, upReset, reason, direct, 
                          respStarted, upDone, notify, cur, setupRetry, beh, 
                          answered, remaining, rsSet, pt, respHdr, replies, 
-                         attempts, gauge, loopI, phase, err, clientGone, 
+                         attempts, gauge, loopI, phase, err, clientGone, rheld, 
                          retNext, ua >>
 
 GCas == /\ pc["g"] = "GCas"
@@ -763,7 +816,7 @@ GCas == /\ pc["g"] = "GCas"
         /\ UNCHANGED << cleaned, dsReset, upReset, reason, direct, respStarted, 
                         upDone, notify, cur, setupRetry, beh, answered, 
                         remaining, rsSet, pt, deadlinePassed, respHdr, replies, 
-                        attempts, gauge, loopI, phase, err, clientGone, 
+                        attempts, gauge, loopI, phase, err, clientGone, rheld, 
                         retNext, ua >>
 
 GAct == /\ pc["g"] = "GAct"
@@ -782,7 +835,7 @@ GAct == /\ pc["g"] = "GAct"
         /\ UNCHANGED << urr, cleaned, dsReset, direct, respStarted, upDone, 
                         cur, setupRetry, answered, remaining, rsSet, pt, 
                         deadlinePassed, respHdr, replies, attempts, gauge, 
-                        loopI, phase, err, clientGone, retNext, ua >>
+                        loopI, phase, err, clientGone, rheld, retNext, ua >>
 
 GDone == /\ pc["g"] = "GDone"
          /\ TRUE
@@ -791,7 +844,7 @@ GDone == /\ pc["g"] = "GDone"
                          respStarted, upDone, notify, cur, setupRetry, beh, 
                          answered, remaining, rsSet, gt, pt, deadlinePassed, 
                          respHdr, replies, attempts, gauge, loopI, phase, err, 
-                         clientGone, retNext, ua >>
+                         clientGone, rheld, retNext, ua >>
 
 gtimer == GFire \/ GCas \/ GAct \/ GDone
 
@@ -806,7 +859,7 @@ PFire == /\ pc["p"] = "PFire"
                          respStarted, upDone, notify, cur, setupRetry, beh, 
                          answered, remaining, rsSet, gt, deadlinePassed, 
                          respHdr, replies, attempts, gauge, loopI, phase, err, 
-                         clientGone, retNext, ua >>
+                         clientGone, rheld, retNext, ua >>
 
 PCas == /\ pc["p"] = "PCas"
         /\ IF cleaned = 1 \/ urr = 1
@@ -819,7 +872,7 @@ PCas == /\ pc["p"] = "PCas"
         /\ UNCHANGED << cleaned, dsReset, upReset, reason, direct, respStarted, 
                         upDone, notify, cur, setupRetry, beh, answered, 
                         remaining, rsSet, gt, deadlinePassed, respHdr, replies, 
-                        attempts, gauge, loopI, phase, err, clientGone, 
+                        attempts, gauge, loopI, phase, err, clientGone, rheld, 
                         retNext, ua >>
 
 PAct == /\ pc["p"] = "PAct"
@@ -841,7 +894,7 @@ PAct == /\ pc["p"] = "PAct"
         /\ UNCHANGED << urr, cleaned, dsReset, direct, respStarted, upDone, 
                         cur, setupRetry, answered, remaining, rsSet, gt, 
                         deadlinePassed, respHdr, replies, attempts, gauge, 
-                        loopI, phase, err, clientGone, retNext, ua >>
+                        loopI, phase, err, clientGone, rheld, retNext, ua >>
 
 PAgain == /\ pc["p"] = "PAgain"
           /\ pc' = [pc EXCEPT !["p"] = "PFire"]
@@ -849,7 +902,7 @@ PAgain == /\ pc["p"] = "PAgain"
                           respStarted, upDone, notify, cur, setupRetry, beh, 
                           answered, remaining, rsSet, gt, pt, deadlinePassed, 
                           respHdr, replies, attempts, gauge, loopI, phase, err, 
-                          clientGone, retNext, ua >>
+                          clientGone, rheld, retNext, ua >>
 
 PDone == /\ pc["p"] = "PDone"
          /\ TRUE
@@ -858,7 +911,7 @@ PDone == /\ pc["p"] = "PDone"
                          respStarted, upDone, notify, cur, setupRetry, beh, 
                          answered, remaining, rsSet, gt, pt, deadlinePassed, 
                          respHdr, replies, attempts, gauge, loopI, phase, err, 
-                         clientGone, retNext, ua >>
+                         clientGone, rheld, retNext, ua >>
 
 ptimer == PFire \/ PCas \/ PAct \/ PAgain \/ PDone
 
@@ -878,7 +931,7 @@ UIdle == /\ pc["u"] = "UIdle"
                          respStarted, upDone, notify, cur, setupRetry, beh, 
                          remaining, rsSet, gt, pt, deadlinePassed, respHdr, 
                          replies, attempts, gauge, loopI, phase, err, 
-                         clientGone, retNext >>
+                         clientGone, rheld, retNext >>
 
 UGuard == /\ pc["u"] = "UGuard"
           /\ IF ProcessDone \/ setupRetry[ua]
@@ -888,7 +941,7 @@ UGuard == /\ pc["u"] = "UGuard"
                           respStarted, upDone, notify, cur, setupRetry, beh, 
                           answered, remaining, rsSet, gt, pt, deadlinePassed, 
                           respHdr, replies, attempts, gauge, loopI, phase, err, 
-                          clientGone, retNext, ua >>
+                          clientGone, rheld, retNext, ua >>
 
 UCas == /\ pc["u"] = "UCas"
         /\ IF urr = 0
@@ -901,7 +954,8 @@ UCas == /\ pc["u"] = "UCas"
         /\ UNCHANGED << cleaned, dsReset, upReset, reason, direct, respStarted, 
                         upDone, cur, setupRetry, beh, answered, remaining, 
                         rsSet, gt, pt, deadlinePassed, replies, attempts, 
-                        gauge, loopI, phase, err, clientGone, retNext, ua >>
+                        gauge, loopI, phase, err, clientGone, rheld, retNext, 
+                        ua >>
 
 UReset == /\ pc["u"] = "UReset"
           /\ IF ~setupRetry[ua] /\ upReset = 0
@@ -914,7 +968,8 @@ UReset == /\ pc["u"] = "UReset"
           /\ UNCHANGED << urr, cleaned, dsReset, direct, respStarted, upDone, 
                           cur, setupRetry, beh, answered, remaining, rsSet, gt, 
                           pt, deadlinePassed, respHdr, replies, attempts, 
-                          gauge, loopI, phase, err, clientGone, retNext, ua >>
+                          gauge, loopI, phase, err, clientGone, rheld, retNext, 
+                          ua >>
 
 UDone == /\ pc["u"] = "UDone"
          /\ TRUE
@@ -923,7 +978,7 @@ UDone == /\ pc["u"] = "UDone"
                          respStarted, upDone, notify, cur, setupRetry, beh, 
                          answered, remaining, rsSet, gt, pt, deadlinePassed, 
                          respHdr, replies, attempts, gauge, loopI, phase, err, 
-                         clientGone, retNext, ua >>
+                         clientGone, rheld, retNext, ua >>
 
 upstream == UIdle \/ UGuard \/ UCas \/ UReset \/ UDone
 
@@ -941,7 +996,8 @@ CGone == /\ pc["c"] = "CGone"
          /\ UNCHANGED << urr, cleaned, upReset, reason, direct, respStarted, 
                          upDone, cur, setupRetry, beh, answered, remaining, 
                          rsSet, gt, pt, deadlinePassed, respHdr, replies, 
-                         attempts, gauge, loopI, phase, err, retNext, ua >>
+                         attempts, gauge, loopI, phase, err, rheld, retNext, 
+                         ua >>
 
 client == CGone
 
@@ -970,6 +1026,9 @@ NoFallOut      == pc["w"] # "FellOut"
 EndsProperly   == pc["w"] \in {"Exit", "Done"} => (cleaned = 1 /\ (replies = 1 \/ clientGone))
 GaugeExact     == gauge = 1 - cleaned
 AttemptsBound  == attempts <= 1 + Budget
+(* C10: the cluster's retries resource taken for an admitted retry is given back by the time the request is over *)
+RetriesReturned == pc["w"] \in {"Exit", "Done"} /\ cleaned = 1 => rheld = 0
+RetriesBounded  == rheld \in {0, 1}
 NoAttemptAfterReply == [][respStarted => attempts' = attempts]_vars
 (* a request whose upstream never answers is completed by the timeout: the worker is never parked for ever.
    TLC reports the hang as a deadlock (worker in Wait, timers spent, nothing left to wake it). *)
